@@ -192,7 +192,7 @@ func (c17) Run(e *Env) {
 	}
 	var st map[string]int64
 	prev := -1
-	for round := 0; round < 10; round++ {
+	for round := 0; round < 400; round++ { // until a whole settle period brings no progress
 		if err := e.Settle(time.Duration(e.C.Settle)); err != nil {
 			e.R.Discard = "settle: " + err.Error()
 			return
